@@ -400,6 +400,72 @@ def rule_rs(ctx, rep, rid):
         rep.check(back is None, rid, name + ".no-work-after-unlock", "no table access after read_unlock", "table accessed after read_unlock", [u.where() for u in ul[:1]])
 
 
+def rule_online(ctx, rep, rid):
+    """A read-side section only protects a thread that is online: under QSBR rcu_read_lock() is empty and an offline thread is not
+    waited for by grace periods.  Between flavor->thread_offline() and the next flavor->thread_online() no code of the hash table takes
+    the read-side lock or touches a node's next word - directly or in anything it calls (function pointers handed on included)."""
+    m = ctx.mod("cds", "perfn")
+    fns = dict((g.name, g) for g in m.defined())
+
+    def touches(g):
+        return bool(flavor_icalls(g, "read_lock")) or bool(pat.accesses(g, NEXT, ("load", "store", "rmw", "cmpxchg", "xchg")))
+
+    def callees(g):
+        out = set()
+        for i in g.all_insts():
+            if i.op == "call" and i.callee in fns:
+                out.add(i.callee)
+            if i.op in ("call", "icall"):
+                for a in i.args:
+                    if isinstance(a, (list, tuple)) and len(a) >= 2 and a[0] == "f" and a[1] in fns:
+                        out.add(a[1])
+        return out
+
+    memo = {}
+
+    def closure_touches(name, seen=()):
+        if name in memo:
+            return memo[name]
+        if name in seen:
+            return None
+        g = fns[name]
+        r = name if touches(g) else None
+        if r is None:
+            for c in sorted(callees(g)):
+                r = closure_touches(c, seen + (name,))
+                if r:
+                    break
+        memo[name] = r
+        return r
+
+    n = 0
+    for g in m.defined():
+        offs = flavor_icalls(g, "thread_offline")
+        if not offs:
+            continue
+        ons = flavor_icalls(g, "thread_online")
+        rep.touch(g)
+        for o in offs:
+            n += 1
+            after = g.reachable_set([o], avoid=lambda i: i in ons)
+            bad = None
+            for i in g.all_insts():
+                if i.id not in after or i is o:
+                    continue
+                if i.op == "icall" and i in flavor_icalls(g, "read_lock"):
+                    bad = (i, "takes the read-side lock")
+                elif i.op in ("load", "store", "rmw", "cmpxchg") and i.d.get("ap") and NEXT in pat.full_ap_fields(i.d["ap"]):
+                    bad = (i, "reads / writes a node's next word")
+                elif i.op == "call" and i.callee in fns and closure_touches(i.callee):
+                    bad = (i, "calls %s, which reaches %s (read-side section / chain access)" % (fns[i.callee].srcname, fns[closure_touches(i.callee)].srcname))
+                if bad:
+                    break
+            rep.check(bad is None, rid, "%s.offline@%d" % (g.srcname, o.line), "nothing between thread_offline() and thread_online() uses the table under RCU protection",
+                      "%s %s while the thread is offline (after flavor->thread_offline()): for a QSBR table the read-side sections taken there protect nothing - a node removed, "
+                      "waited for and freed by its owner is still dereferenced" % (g.srcname, bad[1] if bad else ""), [o.where()] + ([bad[0].where()] if bad else []))
+    pat.require(n >= 1, "no thread_offline() in the hash table any more")
+
+
 def rule_rev(ctx, rep, rid):
     m = ctx.mod("cds", "perfn")
     g = m.globals.get("BitReverseTable256")
